@@ -1212,8 +1212,9 @@ fn c03_async_server(case: &Case) {
         let router = build_router(&counters, n_mw, mw_first);
         let listener = AsyncServer::listen("127.0.0.1:0").await.unwrap();
         let addr = listener.local_addr().unwrap();
+        let (rt, wt) = (pick(&[None, Some(Duration::from_secs(3_600))]), pick(&[None, Some(Duration::from_secs(3_600))]));
         let server = tokio::spawn(async move {
-            let _ = AsyncServer::new(router).serve(listener).await;
+            let _ = AsyncServer::new(router).read_timeout(rt).write_timeout(wt).serve(listener).await;
         });
         let Some(responses) = pipeline(addr, &reqs, expect_n).await else {
             case.harness_error("connect failed");
